@@ -41,12 +41,17 @@ def main():
     # 1. confirmation
     counts_with, failed_with = pytest_counts(wt)
     rc_with, out_with = demo(wt, os.path.join(src, "demo.py"))
-    sh(f"git -C {wt} stash")
+    # (git stash is shared between worktrees of one repository: use apply -R / apply on this worktree only)
+    pf = os.path.abspath(os.path.join(src, "patch.diff"))
+    r = sh(f"git -C {wt} apply -R {pf}")
+    if r.returncode != 0:
+        print("cannot reverse the patch:", r.stderr)
+        sys.exit(2)
     try:
         counts_without, failed_without = pytest_counts(wt)
         rc_without, out_without = demo(wt, os.path.join(src, "demo.py"))
     finally:
-        sh(f"git -C {wt} stash pop")
+        sh(f"git -C {wt} apply {pf}")
     meta["confirmation"] = {"tests_with_change": counts_with, "tests_without_change": counts_without, "same_failing_tests": failed_with == failed_without,
                             "demo_exit_with_change": rc_with, "demo_exit_without_change": rc_without, "demo_output_with_change": out_with}
     ok = counts_with == counts_without and failed_with == failed_without and rc_with == 1 and rc_without == 0
